@@ -146,8 +146,12 @@ void one_case(Ctx &c) {
       uint32_t code = cl.write((uint16_t)(0x1800 + p), 5, ev, 2); s.tx = cl.foreign; cl.foreign.clear(); CHECK(c, code == 0, "event-time-write", "write to 18%02Xh:5 refused with %08X", p, code);
       VLOG(c, "18%02Xh:5 := %u", p, ev);
       MP &m = x.mp[p]; bool newE = m.en && x.mode == 3; if (newE) m.E = ev;
+      // the statement is silent on a write to the event time while the inhibit time runs: either the timing is restarted and a waiting
+      // transmission released at once (what the stack does), or the inhibit window continues and only the event timer is re-armed
+      std::vector<Dyn> cont; if (newE) for (auto &a : m.alt) if (a.inh_end >= 0) { Dyn b = a; b.ev_due = m.E > 0 ? x.T + m.E : -1; cont.push_back(b); }
       for (size_t k = 0; k < m.alt.size(); k++) { Dyn &a = m.alt[k]; a.ev_due = -1; bool pend = a.pending; a.pending = false; a.inh_end = -1;
         if (newE) { if (pend) x.tx1(p, a, 1, k == 0); else if (m.E > 0) a.ev_due = x.T + m.E; } }
+      for (auto &b : cont) m.alt.push_back(b);
       x.compare("event-time write");
     } else if (op == 8) { // SDO write through which an asynchronous object changes
       if (x.mode == 4) continue; int o = c.t.coin() ? 0 : 2; uint32_t v = c.t.u16(); if (o == 0) v &= 0xFF;
@@ -187,7 +191,7 @@ Registrar reg(Prop{
     {Mode{"random", one_case, false, 2000000, 30000000, 0, 0, 300, 500}},
     {"timer frequency 1000 Hz: inhibit times are multiples of 1 ms (10 x 100 us), event times whole ms",
      "the first event-timer expiry after activation of TPDO number n may fall on any tick in [E, E+n] (the stack staggers start-up by the PDO number; the statement does not fix it): alternatives are tracked per TPDO and dropped when contradicted",
-     "a write to the event time while the PDO runs restarts its timing and releases a waiting transmission at once (the behaviour the repository's unit test ut-pdo-event implies); the alternative 'inhibit window continues' named in DESIGN.md would need a second model state and is not admitted by this check",
+     "a write to the event time while the inhibit time runs: both 'timing restarted, waiting transmission released at once' (what the stack and ut-pdo-event do) and 'inhibit window continues, event timer re-armed' are admitted (alternatives tracked per TPDO)",
      "type 0 (acyclic synchronous) and inhibit times on synchronous TPDOs are outside the statement and not generated"}});
 
 }  // namespace
